@@ -560,9 +560,9 @@ m('M45f', 'C19', 'C19.trailer', 'coro_storage.h',
   "        auto s = reinterpret_cast<reusable_storage_mtsafe **>(reinterpret_cast<char *>(ptr) + sz);\n        auto me = *s;", "        auto s = reinterpret_cast<reusable_storage_mtsafe **>(reinterpret_cast<char *>(ptr) + sz - sizeof(void *));\n        auto me = *s;", 'dealloc reads the owner at another offset')
 m('M46', 'C20', 'C20.no-allocation-reachable', 'mutex.h',
   """    void build_queue(awaiter *stop) {
-        assert("Can't build queue if there are items in it" && _queue == nullptr);""", """    void build_queue(awaiter *stop) {
+        //atomically swap top of _requests with doorman""", """    void build_queue(awaiter *stop) {
         std::vector<awaiter *> __tmp; __tmp.push_back(stop);
-        assert("Can't build queue if there are items in it" && _queue == nullptr);""", 'vector in build_queue')
+        //atomically swap top of _requests with doorman""", 'vector in build_queue')
 m('M47', 'C20', 'C20.no-allocation-reachable', 'awaiter.h',
   """    sync_awaiter awt;
     if (subscribe(&awt)) {
